@@ -11,7 +11,7 @@ import numpy as np
 from hypothesis import strategies as st
 
 from ..core import EVIDENCE_DIR, VERIF_DIR, HarnessError, SubCheck, Violation, cut, quiet, require
-from ..strategies import bfloat, ulp_step
+from ..strategies import bfloat, rel_near, ulp_step
 
 PROPERTY_ID = "C15"
 LEVEL = "exploration"
@@ -65,7 +65,8 @@ TEXT_SPECIALS = ["a\r\nb", "\r\n", "\r", "\n", '"', "\\", "'''", '"""', "\t", "\
 text_st = st.one_of(st.text(max_size=30), st.sampled_from(TEXT_SPECIALS), st.text(alphabet=st.characters(min_codepoint=0, max_codepoint=127), max_size=20), st.lists(st.sampled_from(TEXT_SPECIALS + ["x", "y"]), max_size=4).map("".join))
 
 fin = st.one_of(st.floats(allow_nan=False, allow_infinity=False), st.floats(-1e3, 1e3), st.sampled_from([0.0, -0.0, 5e-324, 1e300, -1e300, 1.0, 2.2250738585072014e-308, 0.1, 1 / 3]))
-ang = st.one_of(st.floats(-10.0, 10.0), st.sampled_from([0.0, -0.0, math.pi, math.radians(3.0), math.radians(7.0), 5e-324, 1e300, math.radians(360.0), 1e-300]), fin)
+WHOLE_DEG = [math.radians(k) for k in (1, 3, 7, 34, 45, 90, 150, 180, 360, -18, -33)]
+ang = st.one_of(rel_near(WHOLE_DEG), st.floats(-10.0, 10.0), st.sampled_from([0.0, -0.0, math.pi, math.radians(3.0), math.radians(7.0), 5e-324, 1e300, math.radians(360.0), 1e-300]), fin)
 
 
 def config_dict():
